@@ -207,13 +207,16 @@ func driveC20(c *Ctx) {
 		finish()
 		return
 	}
+	distinct := map[string]bool{}
 	plans, weightSection, wcount := tspRun(c, -1, func(i int, e tspEntry) int {
 		if !e.Traced {
 			return runTsp(nil, e.P)
 		}
+		distinct[e.P.key()] = true
 		return runTsp(set.Begin(fmt.Sprintf("%s#%d", e.P.key(), i), tr.E{"input": tspIn{e.P, i}}), e.P)
 	})
 	meta["plans"] = plans
+	meta["plans_distinct"] = len(distinct)
 	meta["plans_with_fault_in_weight_section"] = weightSection
 	meta["writes_per_config"] = wcount
 	finish()
